@@ -11,7 +11,7 @@
    (it need not be: C10_probe_refuted). *)
 From CV Require Import Base.Tac Base.LinAlg Base.Cmp Model.C10_Conj Model.C10_ConjR
                        Proofs.C10_Kernel Proofs.C10_Exact Proofs.C10_Valid Proofs.C10_Carrier
-                       Proofs.C10_Approx Proofs.C10_Probe2 Proofs.C10_Vec.
+                       Proofs.C10_Approx Proofs.C10_Probe2 Proofs.C10_Vec Proofs.C10_Full.
 From Coq Require Import Reals QArith Qabs Qreals.
 
 (* ------------------------------------------------------------------------------------------------- *)
@@ -405,6 +405,64 @@ Theorem C10_probe_reciprocal_refuted :
   exists f s, probe_reciprocal [f] = PTrue /\ ~ (deval f s == 1 / s)%Q.
 Proof. exact probe_reciprocal_refuted. Qed.
 Print Assumptions C10_probe_reciprocal_refuted.
+
+(* ------------------------------------------------------------------------------------------------- *)
+(* 9. dense full matrices from the laws of the numpy oracles; the regularized pairs                     *)
+(* ------------------------------------------------------------------------------------------------- *)
+
+(* prec = s * P1 with a full (non-diagonal) matrix: rank_fn / logdet_fn / cholT_fn stand for numpy's matrix_rank, slogdet and
+   cholesky; hypotheses are their laws on the family s*P1 (cholesky: L^T L = P; det(sP) = s^n det P; P1 invertible).
+   m = the distribution's rank at unit hyper-parameter, L = its sqrtprec there -- as in the code *)
+Theorem C10_gaussian_full_prec_exact :
+  forall (lnG : R -> R) (rank_fn : Rmat -> nat) (logdet_fn : Rmat -> R) (cholT_fn : Rmat -> Rmat)
+         (prec_fun : R -> Rmat) (P1 : Rmat) (Ax b : Rvec) (alpha beta : R),
+    let n := length b in
+    (forall s, 0 < s -> prec_fun s = Rmscale s P1)%R ->
+    (forall s, 0 < s -> chol_law n (cholT_fn (Rmscale s P1)) (Rmscale s P1))%R ->
+    (forall s, 0 < s -> logdet_fn (Rmscale s P1) = INR n * ln s + logdet_fn P1)%R ->
+    (forall s, 0 < s -> rank_fn (Rmscale s P1) = n)%R ->
+    length Ax = n ->
+    proportional_on_pos (post_logd lnG (lik_gauss_precfull rank_fn logdet_fn cholT_fn prec_fun Ax b) alpha beta)
+      (sampler_logpdf lnG (fst (fst (from_prec_full rank_fn logdet_fn cholT_fn (prec_fun 1%R))))
+                      (sqrtprec_of (from_prec_full rank_fn logdet_fn cholT_fn (prec_fun 1%R))) Ax b alpha beta).
+Proof. exact (fun lnG rk ld ch => gauss_precfull_exact lnG rk ld (fun M => M) ch). Qed.
+Print Assumptions C10_gaussian_full_prec_exact.
+
+(* cov = C1 / s with a full matrix: additionally numpy's inv with inv(C/s) = s inv(C), det(C/s) = det C / s^n *)
+Theorem C10_gaussian_full_cov_exact :
+  forall (lnG : R -> R) (rank_fn : Rmat -> nat) (logdet_fn : Rmat -> R) (inv_fn cholT_fn : Rmat -> Rmat)
+         (cov_fun : R -> Rmat) (C1 : Rmat) (Ax b : Rvec) (alpha beta : R),
+    let n := length b in
+    (forall s, 0 < s -> cov_fun s = Rmscale (1 / s) C1)%R ->
+    (forall s, 0 < s -> chol_law n (cholT_fn (inv_fn (Rmscale (1 / s) C1))) (inv_fn (Rmscale (1 / s) C1)))%R ->
+    (forall s v, (0 < s)%R -> length v = n ->
+        Rmatvec (inv_fn (Rmscale (1 / s) C1)) v = Rvscale s (Rmatvec (inv_fn C1) v)) ->
+    (forall s, 0 < s -> logdet_fn (Rmscale (1 / s) C1) = logdet_fn C1 - INR n * ln s)%R ->
+    (forall s, 0 < s -> rank_fn (Rmscale (1 / s) C1) = n)%R ->
+    length Ax = n ->
+    proportional_on_pos (post_logd lnG (lik_gauss_covfull rank_fn logdet_fn inv_fn cholT_fn cov_fun Ax b) alpha beta)
+      (sampler_logpdf lnG (fst (fst (from_cov_full rank_fn logdet_fn inv_fn cholT_fn (cov_fun 1%R))))
+                      (sqrtprec_of (from_cov_full rank_fn logdet_fn inv_fn cholT_fn (cov_fun 1%R))) Ax b alpha beta).
+Proof. exact gauss_covfull_exact. Qed.
+Print Assumptions C10_gaussian_full_cov_exact.
+
+(* regularized pairs: the Gamma with m = count_nonzero(b) is the exact conditional of the density given by the documented
+   support rule (exponent count_nonzero(b)/2, unchanged quadratic term) *)
+Theorem C10_regularized_support_rule_exact :
+  forall (lnG : R -> R) (k : lik_kind) (bq : list Q) (gmrf_rank : nat) (lik : R -> R) (q c : R) (L1 : Rmat) (Ax b : Rvec) (alpha beta : R),
+    is_reg k = true ->
+    (forall s, 0 < s -> lik s = INR (count_nonzero bq) / 2 * ln s - s * (q / 2) + c)%R ->
+    Rnormsq (Rmatvec L1 (Rvsub Ax b)) = q ->
+    proportional_on_pos (post_logd lnG lik alpha beta) (sampler_logpdf lnG (sampler_m k gmrf_rank bq) L1 Ax b alpha beta).
+Proof. exact regularized_support_rule_exact. Qed.
+Print Assumptions C10_regularized_support_rule_exact.
+
+Example C10_oracle_laws_satisfiable :
+  let P1 := [[2%R]] in let n := 1%nat in
+  (forall s, 0 < s -> chol_law n (ex_cholT (Rmscale s P1)) (Rmscale s P1))%R
+  /\ (forall s, 0 < s -> ex_logdet (Rmscale s P1) = INR n * ln s + ex_logdet P1)%R
+  /\ (forall s, 0 < s -> ex_rank (Rmscale s P1) = n)%R.
+Proof. exact ex_laws. Qed.
 
 (* ------------------------------------------------------------------------------------------------- *)
 (* non-vacuity: the hypotheses of the exactness theorems are satisfiable                              *)
